@@ -4,6 +4,7 @@ package impl
 
 import (
 	"bytes"
+	"runtime/debug"
 	"container/list"
 	"fmt"
 	"io"
@@ -17,6 +18,21 @@ import (
 
 var nav yqlib.DataTreeNavigator
 
+// Panic is what the adapters return when the implementation panicked: the value and the stack at the point of the panic.
+type Panic struct {
+	V     interface{}
+	Stack string
+}
+
+func (p *Panic) String() string { return fmt.Sprint(p.V) }
+
+func caught(r interface{}) interface{} {
+	if p, ok := r.(*Panic); ok {
+		return p
+	}
+	return &Panic{V: r, Stack: string(debug.Stack())}
+}
+
 func Init() {
 	logging.SetLevel(logging.ERROR, "")
 	yqlib.InitExpressionParser()
@@ -29,7 +45,7 @@ func Nav() yqlib.DataTreeNavigator { return nav }
 func Parse(expr string) (node *yqlib.ExpressionNode, err error, panicked interface{}) {
 	defer func() {
 		if r := recover(); r != nil {
-			panicked = r
+			panicked = caught(r)
 		}
 	}()
 	node, err = yqlib.ExpressionParser.ParseExpression(expr)
@@ -46,7 +62,7 @@ func YamlPrefs() yqlib.YamlPreferences {
 func DecodeYAML(text string) (docs []*yqlib.CandidateNode, err error, panicked interface{}) {
 	defer func() {
 		if r := recover(); r != nil {
-			panicked = r
+			panicked = caught(r)
 		}
 	}()
 	dec := yqlib.NewYamlDecoder(YamlPrefs())
@@ -83,7 +99,7 @@ func Doc(v *val.V) *yqlib.CandidateNode {
 func Eval(e *yqlib.ExpressionNode, inputs ...*yqlib.CandidateNode) (res []*yqlib.CandidateNode, err error, panicked interface{}) {
 	defer func() {
 		if r := recover(); r != nil {
-			panicked = r
+			panicked = caught(r)
 		}
 	}()
 	l := list.New()
@@ -104,7 +120,7 @@ func Eval(e *yqlib.ExpressionNode, inputs ...*yqlib.CandidateNode) (res []*yqlib
 func EvalRO(e *yqlib.ExpressionNode, inputs ...*yqlib.CandidateNode) (res []*yqlib.CandidateNode, err error, panicked interface{}) {
 	defer func() {
 		if r := recover(); r != nil {
-			panicked = r
+			panicked = caught(r)
 		}
 	}()
 	l := list.New()
@@ -221,7 +237,7 @@ func PrintYAML(nodes []*yqlib.CandidateNode) (out string, err error, panicked in
 func Print(nodes []*yqlib.CandidateNode, enc yqlib.Encoder) (out string, err error, panicked interface{}) {
 	defer func() {
 		if r := recover(); r != nil {
-			panicked = r
+			panicked = caught(r)
 		}
 	}()
 	var buf bytes.Buffer
